@@ -241,6 +241,7 @@ func (t *Transport) readMessage(obj ProtocolObject, maxLen uint64) error {
 	d := types.NewDecoder(io.LimitedReader{R: t.conn, N: int64(8 + maxLen)})
 	msgSize := d.ReadUint64()
 	if d.Err() != nil {
+		t.setErr(d.Err())
 		return d.Err()
 	} else if msgSize > maxLen {
 		// the stream cannot be resynchronized after a bad length prefix
@@ -257,6 +258,14 @@ func (t *Transport) readMessage(obj ProtocolObject, maxLen uint64) error {
 	buf := t.inbuf.Bytes()[:msgSize]
 	d.Read(buf)
 	if d.Err() != nil {
+		// the length prefix has been consumed: whatever interrupted the read,
+		// the stream cannot be resynchronized
+		t.mu.Lock()
+		if t.err == nil {
+			t.conn.Close()
+			t.err = d.Err()
+		}
+		t.mu.Unlock()
 		return d.Err()
 	}
 	atomic.AddUint64(&t.r, uint64(8+msgSize))
